@@ -4,6 +4,7 @@ package c17
 import (
 	"fmt"
 	"os"
+	"strings"
 	"time"
 
 	"github.com/cossacklabs/acra/keystore"
@@ -37,7 +38,11 @@ func Run(r *ev.Run) {
 	th := r.Thorough()
 	w := newSchedWorld()
 	phases := map[string]float64{}
+	only := os.Getenv("VERIF_C17_PHASES") // development aid: run only the phases whose name contains this (the non-vacuity guards then fail the run)
 	phase := func(name string, f func()) {
+		if only != "" && !strings.Contains(name, only) {
+			return
+		}
 		t0 := time.Now()
 		f()
 		phases[name] = time.Since(t0).Seconds() // reporting only
@@ -86,6 +91,12 @@ func Run(r *ev.Run) {
 	phase("shared handle with writers dir", func() {
 		v2SharedHandleWriters(r, "dir", dirFactory(ksrig.ScratchDir("c17-shared-w")), 6, 2, 2, r.Pick(15, 30))
 	})
+
+	// (r) Redis layer: one RedisBackend (own connection pool) per handle on one fakeredis server
+	phase("redis controlled random", func() { w.redisSchedules(r, r.Pick(60, 600), 4) })
+	phase("redis lock expiry", func() { w.redisLockExpiry(r, r.Pick(12, 48)) })
+	phase("redis stress", func() { redisStress(r, r.Pick(6, 12), r.Pick(8, 12), hot, false) })
+	phase("redis stress leaked lock", func() { redisStress(r, r.Pick(6, 8), r.Pick(6, 10), hot, true) })
 
 	// (c) v1 readers
 	phase("v1 readers", func() {
